@@ -239,14 +239,22 @@ nni_listener_init(nni_listener *l, nni_sock *s, nni_sp_tran *tran)
 
 	rv = l->l_ops.l_init(lp, &l->l_url, l);
 
-	if (rv == 0) {
-		rv = nni_sock_add_listener(s, l);
-	}
-
+	// Get the id before the socket can see us: once we are on the socket's
+	// list a concurrent nng_socket_close closes us, and that must find
+	// the id to remove (or the id table would keep a freed listener).
 	if (rv == 0) {
 		nni_mtx_lock(&listeners_lk);
 		rv = nni_id_alloc32(&listeners, &l->l_id, l);
 		nni_mtx_unlock(&listeners_lk);
+	}
+
+	if (rv == 0) {
+		rv = nni_sock_add_listener(s, l);
+		if (rv != 0) {
+			nni_mtx_lock(&listeners_lk);
+			nni_id_remove(&listeners, l->l_id);
+			nni_mtx_unlock(&listeners_lk);
+		}
 	}
 
 	if (rv == 0) {
